@@ -4,12 +4,14 @@ import (
 	"context"
 	"fmt"
 	"io"
+	"os"
 	"reflect"
 	"time"
 
 	"go.flow.arcalot.io/engine/internal/verif/env"
 	"go.flow.arcalot.io/engine/internal/verif/vrt"
 	ratp "go.flow.arcalot.io/pluginsdk/atp"
+	sdkplugin "go.flow.arcalot.io/pluginsdk/plugin"
 	"go.flow.arcalot.io/pluginsdk/schema"
 )
 
@@ -86,6 +88,133 @@ func conformCase(kind env.RunKind, stepID string, input any) (real, fake conform
 	return real, fake, fakeErr
 }
 
+// blockObs: in which phase of the protocol "start, wait, send the cancel signal, wait, break the
+// connection, wait" the execution returned, and with what.
+type blockObs struct {
+	Phase    int // 1 before the cancel signal, 2 after it, 3 after the connection was broken, 0 never
+	OutputID string
+	IsErr    bool
+}
+
+// conformBlocking replays a step that does not return by itself through the same protocol on the
+// in-process client (virtual time) and on the real ATP client/server (real time). The real side waits
+// generously (10 s) in the phase where the model answers and briefly (80 ms) in the phases before it,
+// so that machine load can delay but not reorder what is observed.
+func conformBlocking(sc env.StepScript, stepID string, sendCancel bool) (real, fake blockObs, err error) {
+	input := map[string]any{"v": 5}
+	cancelSig := schema.Input{RunID: "r1", ID: sdkplugin.CancellationSignalSchema.ID(), InputData: map[any]any{}}
+	// fake, under the controlled scheduler
+	var fakeErr error
+	vrt.Run(vrt.Config{}, nil, func() {
+		sc := sc
+		conn, _ := env.NewStandalonePlugin("k", &sc)
+		cl := env.NewClient(conn)
+		if _, e := cl.ReadSchema(); e != nil {
+			fakeErr = fmt.Errorf("fake ReadSchema: %w", e)
+			return
+		}
+		sig := make(chan schema.Input, 1)
+		got := false
+		var res ratp.ExecutionResult
+		vrt.Go("harness/conform.exec", func() {
+			res = cl.Execute(schema.Input{RunID: "r1", ID: stepID, InputData: input}, sig, nil)
+			got = true
+		})
+		phase := 0
+		vrt.Sleep("harness/conform", 100*time.Millisecond)
+		if got {
+			phase = 1
+		}
+		if phase == 0 && sendCancel {
+			vrt.PreSend("harness/conform.sig", sig)
+			sig <- cancelSig
+			vrt.Sleep("harness/conform", 300*time.Millisecond)
+			if got {
+				phase = 2
+			}
+		}
+		if phase == 0 {
+			_ = conn.Close()
+			vrt.Sleep("harness/conform", 3000*time.Millisecond)
+			if got {
+				phase = 3
+			}
+		}
+		fake = blockObs{Phase: phase}
+		if got {
+			fake.OutputID, fake.IsErr = res.OutputID, res.Error != nil
+		}
+		if !got {
+			_ = conn.Close()
+		}
+	})
+	if fakeErr != nil {
+		return real, fake, fakeErr
+	}
+	// real stack
+	sc2 := sc
+	conn, plug := env.NewStandalonePlugin("k", &sc2)
+	stdinSub, stdinWriter := io.Pipe()
+	stdoutReader, stdoutSub := io.Pipe()
+	ctx, cancel := context.WithCancel(context.Background())
+	done := make(chan struct{})
+	go func() {
+		ratp.RunATPServer(ctx, stdinSub, stdoutSub, plug) //nolint:errcheck
+		close(done)
+	}()
+	cl := ratp.NewClientWithLogger(pipeChannel{stdoutReader, stdinWriter}, nil)
+	if _, e := cl.ReadSchema(); e != nil {
+		cancel()
+		return real, fake, fmt.Errorf("real ReadSchema: %w", e)
+	}
+	sig := make(chan schema.Input, 1)
+	resCh := make(chan ratp.ExecutionResult, 1)
+	go func() { resCh <- cl.Execute(schema.Input{RunID: "r1", ID: stepID, InputData: input}, sig, nil) }()
+	waitFor := func(phase int) (ratp.ExecutionResult, bool) {
+		d := 80 * time.Millisecond
+		if phase == fake.Phase {
+			d = 10 * time.Second
+		}
+		select {
+		case r := <-resCh:
+			return r, true
+		case <-time.After(d):
+			return ratp.ExecutionResult{}, false
+		}
+	}
+	r, ok := waitFor(1)
+	if ok {
+		real.Phase = 1
+	}
+	if !ok && sendCancel {
+		sig <- cancelSig
+		if r, ok = waitFor(2); ok {
+			real.Phase = 2
+		}
+	}
+	if !ok {
+		// the deployer kills the plugin: the pipes break and the plugin's work ends
+		_ = conn.Close()
+		stdinWriter.Close()
+		stdoutReader.Close()
+		if r, ok = waitFor(3); ok {
+			real.Phase = 3
+		}
+	}
+	if ok {
+		real.OutputID, real.IsErr = r.OutputID, r.Error != nil
+	}
+	_ = conn.Close()
+	cancel()
+	stdinWriter.Close()
+	stdoutReader.Close()
+	select {
+	case <-done:
+	case <-time.After(5 * time.Second):
+	}
+	return real, fake, nil
+}
+
 // conformance replays the scripted plugin through the real ATP client/server and compares
 // every observation with the in-process client. It returns the number of traces validated.
 func conformance() (int, []string) {
@@ -114,6 +243,37 @@ func conformance() (int, []string) {
 					problems = append(problems, fmt.Sprintf("kind=%v step=%s input=%v: real=%+v fake=%+v", kind, stepID, in, r, f))
 				}
 			}
+		}
+	}
+	// blocking behaviours: never-ending steps with and without regard for the cancel signal, slow
+	// steps, slow reaction to the signal, steps without a signal handler
+	type bc struct {
+		name   string
+		sc     env.StepScript
+		step   string
+		cancel bool
+	}
+	for _, c := range []bc{
+		{"hang-until-cancel", env.StepScript{Run: env.RunHangCancel}, "run", true},
+		{"hang-until-cancel slow reaction", env.StepScript{Run: env.RunHangCancel, CancelMS: 40}, "run", true},
+		{"hang-ignoring-cancel", env.StepScript{Run: env.RunHangIgnore}, "run", true},
+		{"hang, never signalled", env.StepScript{Run: env.RunHangCancel}, "run", false},
+		{"hang without signal handler", env.StepScript{Run: env.RunHangCancel}, "nosig", false},
+		{"slow success", env.StepScript{RunMS: 30}, "run", true},
+		{"slow success cancelled", env.StepScript{RunMS: 4000}, "run", true},
+		{"slow error output", env.StepScript{Run: env.RunErrorOut, RunMS: 30}, "nosig", false},
+	} {
+		r, f, err := conformBlocking(c.sc, c.step, c.cancel)
+		if err != nil {
+			problems = append(problems, c.name+": "+err.Error())
+			continue
+		}
+		n++
+		if os.Getenv("VERIF_CONFORM_VERBOSE") != "" {
+			fmt.Printf("  blocking %-34s step=%-5s real=%+v fake=%+v\n", c.name, c.step, r, f)
+		}
+		if r != f {
+			problems = append(problems, fmt.Sprintf("blocking behaviour %q (step %s): real=%+v fake=%+v", c.name, c.step, r, f))
 		}
 	}
 	return n, problems
